@@ -202,16 +202,16 @@ static std::string stepOp(const std::vector<std::string> &w)
           B[b].reset();
           return "ok";
         }
-        if (op == "bcopy") {
+        if (op == "bcopy" || op == "bmove") {   // bmove: the source is an rvalue (an observable has no move of its own)
           int b = slot(w.at(1), NB), s = slot(w.at(2), NB);
           if (B[b] || !B[s]) return "skip";
-          B[b].reset(new Observable(*B[s]));
+          if (op == "bcopy") B[b].reset(new Observable(*B[s])); else B[b].reset(new Observable(std::move(*B[s])));
           return "ok";
         }
-        if (op == "bassign") {
+        if (op == "bassign" || op == "bmassign") {
           int b = slot(w.at(1), NB), s = slot(w.at(2), NB);
           if (!B[b] || !B[s]) return "skip";
-          *B[b] = *B[s];
+          if (op == "bassign") *B[b] = *B[s]; else *B[b] = std::move(*B[s]);
           return "ok";
         }
         if (op == "onew") {
